@@ -560,6 +560,42 @@ def writer_table(facts, ap):
     return rows
 
 
+def colour_helpers(facts, rep, R1):
+    """The colour codec moves channels, it never combines them.  A pure integer helper (integers in, integer out)
+    called from read_color / write_color is evaluated on words whose four bytes are distinct single bits: every byte
+    of the result must be one of the four input bytes, each used once."""
+    from summ import Evaluator, Unknown, Panic
+    INT = ("u8", "u16", "u32", "u64", "usize", "i32", "i64")
+    E = Evaluator(facts)
+    for fn in ("mila::asset_binary::read_color", "mila::asset_binary::write_color"):
+        b = facts.body(fn)
+        if b is None:
+            continue
+        spliced = {blk["term"]["inl"] for blk in b.blocks if isinstance(blk["term"].get("inl"), str)}   # (helpers spliced into the analysis view)
+        for hn in sorted({callee_names(t)[1] or "" for bb, t in b.calls()} | spliced):
+            hb = facts.body(hn)
+            if hb is None or not hb.name.startswith("mila::") or hb.argc != 1 or hb.local_ty(0) != "u32" or hb.local_ty(1) != "u32":
+                continue
+            for w in (0x80402010, 0x01020408):
+                try:
+                    got = E.call_body(hb, [w])
+                except (Unknown, Panic):
+                    got = None
+                if not isinstance(got, int):
+                    break
+                ib = sorted((w >> s) & 0xFF for s in (0, 8, 16, 24))
+                ob = [(got >> s) & 0xFF for s in (0, 8, 16, 24)]
+                if sorted(ob) != ib:
+                    mixed = [i for i, x in enumerate(ob) if x not in ib]
+                    rep.violation(R1, hb.name, "colour-channels-mixed",
+                                  "%s(0x%08X) = 0x%08X: byte %d of the result (0x%02X) is not one of the four channel bytes -- the colour codec called from %s combines channels instead of moving them, a colour does not survive the round trip" % (
+                                      hb.name.rsplit("::", 1)[-1], w, got & 0xFFFFFFFF, mixed[0] if mixed else 0, ob[mixed[0]] if mixed else 0, fn.rsplit("::", 1)[-1]),
+                                  "%s:%s" % (hb.file, hb.line))
+                    return
+            else:
+                rep.ok(R1, {"colour_helper": hb.name, "channel_permutation": True})
+
+
 def run(facts, rep, ctx):
     R1 = rep.rule("R18.1", "four-table agreement: field order reader = writer; bit(reader) = bit(flag computation); predicate(flag computation) = predicate(writer); kinds; presence companions", floor=150)
     R2 = rep.rule("R18.2", "short/long form: 4 vs 8 flag bytes by bit 0; extended fields only in the long form; long form iff any of flag bytes 4..6 is non-zero", floor=5)
@@ -567,6 +603,7 @@ def run(facts, rep, ctx):
     R4 = rep.rule("R18.4", "archive adder under the spec writer (write_string): a present string, empty or not, is stored on every non-error path -- the presence bit computed from is_some() and the stored text cannot disagree", floor=1)
     import annot
     annot.contract(facts, rep, R4, ("write_string",))
+    colour_helpers(facts, rep, R1)
     rd = facts.body(SPEC + "::from_stream")
     ap = facts.body(SPEC + "::append")
     if rd is None or ap is None or not rd.pub or not ap.pub:
